@@ -77,6 +77,9 @@ def suffix(s, rnd, kind, subs):
     for name in subs:
         s.await_exec(base=name, since=m)
         s.register("ext:" + name, subs[name])
+        # a late request carrying the identifier this extension was given in the previous generation is refused
+        # (403 Extension.UnknownExtensionIdentifier) and changes nothing
+        s.call("ext:" + name, "next", id="old")
     tags = {}
     if kind == "early-internal":
         # the internal extension registers and polls before the runtime's first poll
